@@ -93,13 +93,13 @@ struct Lossy {
     size_t npk = log.size(), pci = 0;
     std::vector<float> recentL;                    // last second of L output (for the boundedness clause)
     std::vector<double> ref_peak;                  // peak of the loss-free twin's output per packet
-    struct Pending { size_t k; double pk; bool fec; int mode; }; std::vector<Pending> pending;   // isolated concealed frames waiting for packet k+1 of the reference
+    struct Pending { size_t k; double pk; bool fec; int mode; double cng; }; std::vector<Pending> pending;   // isolated concealed frames waiting for packet k+1 of the reference
     const size_t recent_cap = (size_t)dfs * dch;        // 1 s
     auto push_recent = [&](const std::vector<float> &v) { recentL.insert(recentL.end(), v.begin(), v.end()); if (recentL.size() > recent_cap) recentL.erase(recentL.begin(), recentL.end() - (long)recent_cap); };
     // recovery bookkeeping
     long last_loss = -1; double rec_err = 0, rec_ref = 0; long rec_samples = 0; int64_t since_resume48 = 0; bool all_celt_since = true, flushed = false; int64_t silent_run48 = 0, since_flush48 = 0;
     // decay bookkeeping
-    double preloss_rms = 0; int64_t conceal_run48 = 0, active_run48 = 0; double decay_last_rms = -1; bool cng_may_be_armed = false; int64_t clean_run48 = 0;
+    double preloss_rms = 0; int64_t conceal_run48 = 0, active_run48 = 0; double decay_last_rms = -1; bool cng_may_be_armed = false, in_step = true; int64_t clean_run48 = 0; double cng_level = 0;
     // FEC probe accumulators
     double fec_err = 0, plc_err = 0, fec_lvl_err = 0, plc_lvl_err = 0; long fec_events = 0, fec_worse = 0;
     for (size_t k = 0; k < npk; k++) {
@@ -112,7 +112,7 @@ struct Lossy {
       ref_peak.push_back(peak(pr));
       while (!pending.empty() && pending.front().k + 1 <= k) {
         Pending q = pending.front(); pending.erase(pending.begin());
-        double nb = 0; for (size_t j = q.k - 2; j <= q.k + 1 && j < ref_peak.size(); j++) nb = std::max(nb, ref_peak[j]);
+        double nb = q.cng; for (size_t j = q.k - 2; j <= q.k + 1 && j < ref_peak.size(); j++) nb = std::max(nb, ref_peak[j]);
         if (nb >= 0.01) {
           long milli = (long)(q.pk / nb * 1000); if (run.stat["max:conceal_vs_neighbourhood_milli"] < milli) run.stat["max:conceal_vs_neighbourhood_milli"] = milli;
           run.count("bounded_neighbourhood_checked");
@@ -131,8 +131,9 @@ struct Lossy {
         if (conceal_run48 > 0) { conceal_run48 = 0; }
         preloss_rms = sqrt(energy(pl) / std::max<size_t>(1, pl.size()));
         clean_run48 += rc.frame48;
+        { double e = 0, er = energy(pr); for (size_t i = 0; i < pr.size() && i < pl.size(); i++) { double dd = (double)pl[i] - pr[i]; e += dd * dd; } in_step = er <= 0 ? e <= 1e-9 : e / er <= 0.01; }   // L within -20 dB of the loss-free twin on this packet
         if (rc.vad_active) active_run48 += rc.frame48; else active_run48 = 0;
-        if (rc.mode != 2 && !rc.vad_active) cng_may_be_armed = true;
+        if (rc.mode != 2 && !rc.vad_active) { cng_may_be_armed = true; cng_level = peak(pl); }   // what the comfort-noise generator holds: its gain falls to a quieter inactive frame at once and rises slowly, so the most recent inactive frame bounds it from above
         // ---- recovery: L converges back to R once losses stop
         if (last_loss >= 0 && run.verbose) { double e = 0, er = energy(pr); for (size_t i = 0; i < pr.size() && i < pl.size(); i++) { double d = (double)pl[i] - pr[i]; e += d * d; }
           printf("ok k=%zu toc=%02x mode=%d fam=%d silent=%d errdb=%.1f rmsR=%.4f rmsL=%.4f since=%lld\n", k, rc.pkt[0], rc.mode, rc.fam, (int)rc.silent_in, er > 0 ? 10 * log10(std::max(e / er, 1e-12)) : -999.0, sqrt(er / pr.size()), sqrt(energy(pl) / pl.size()), (long long)(since_resume48 / 48)); }
@@ -198,14 +199,21 @@ struct Lossy {
       }
       // ---- bounded: concealed output never exceeds a bounded multiple of the recently decoded level
       bool history_ok = recentL.size() >= (size_t)dfs * 3 / 10 * dch;   // at least 300 ms decoded so far
+      // a mono receiver of a stereo stream plays L+R: channels in (partial) anti-phase cancel in the decoded output but not in the
+      // concealment, whose noise-based stage is uncorrelated between the channels - "the recently decoded level" then says nothing
+      // about the level of the material being concealed
+      if (S.enc.L.ch == 2 && dch == 1) history_ok = false;
       bool concealment_only = !used_fec || log[k + 1].lbrr != 1;   // an FEC frame with LBRR carries new audio: it may legitimately be louder than anything before
-      if (concealment_only && history_ok) {
+      if (concealment_only && history_ok && (clean_run48 >= 150 * 48 || conceal_run48 > 0)) {   // first loss after >= 150 ms of clean reception, or the continuation of a loss run
+        // comfort noise plays, by design, the level of what the encoder flagged as inactive background, however long ago: the reference
+        // level is the louder of the last second and the most recent VAD-inactive SILK frame received
+        recent_peak = std::max(recent_peak, cng_level);
         double pk = peak(pl);
         if (recent_peak > 0 || pk > 0) {
           long ratio_milli = (long)(pk / std::max(recent_peak, 1e-4) * 1000);
           if (recent_peak >= 0.001) { if (run.stat["max:conceal_peak_ratio_milli"] < ratio_milli) run.stat["max:conceal_peak_ratio_milli"] = ratio_milli; run.count("bounded_checked"); }
           if (getenv("OPSIM_CALIB") && recent_peak >= 0.001 && ratio_milli > 2000) fprintf(stderr, "C09PEAK ratio=%.3f recent=%.4f pk=%.4f fec=%d mode=%d fs=%d k=%zu seed=%llu\n", ratio_milli / 1000.0, recent_peak, pk, (int)used_fec, rc.mode, dfs, k, (unsigned long long)cur_seed);
-          if (pk > KAPPA * std::max(recent_peak, 0.001) && pk > 0.01) REPORT(run, prop, "concealed_output_not_bounded", "peak %.4f vs recent peak %.4f (x%.1f), packet %zu, %s", pk, recent_peak, pk / std::max(recent_peak, 1e-4), k, used_fec ? "FEC" : "PLC");
+          if (recent_peak >= 0.005 && pk > KAPPA * recent_peak) REPORT(run, prop, "concealed_output_not_bounded", "peak %.4f vs recent peak %.4f (x%.1f), packet %zu, %s", pk, recent_peak, pk / std::max(recent_peak, 1e-4), k, used_fec ? "FEC" : "PLC");
         }
       }
       // ---- bounded, sharper form for isolated losses: the concealed frame against what the loss-free twin plays in the same
@@ -213,10 +221,10 @@ struct Lossy {
       // (only while the comfort-noise generator has nothing to play: once a SILK packet flagged as inactive has been received, the level
       //  added to every concealed frame is that of the learnt background, by design unrelated to the signal around the loss)
       // (and only where the decoder can be taken to be in step with the encoder: no loss during the previous second, not within the first
-      //  second of the stream, and speech-like or noise-like material - a SILK decoder whose predictor state differs from the encoder's can
+      //  second of the stream, the last received packet decoded within -20 dB of the loss-free twin, and speech-like or noise-like material - a SILK decoder whose predictor state differs from the encoder's can
       //  ring up on steady tones and sweeps for hundreds of milliseconds, see DESIGN.md 10.4)
       bool benign_src = rc.fam == SRC_VOICED || rc.fam == SRC_STEADYVOICED || rc.fam == SRC_NOISE || rc.fam == SRC_SILENCE;
-      if (concealment_only && !cng_may_be_armed && benign_src && clean_run48 >= 150 * 48 && S.t48 >= 0 && k >= 2 && !log[k - 1].lost) pending.push_back(Pending{k, peak(pl), used_fec, rc.mode});
+      if (concealment_only && history_ok && in_step && benign_src && clean_run48 >= 150 * 48 && S.t48 >= 0 && k >= 2 && !log[k - 1].lost) pending.push_back(Pending{k, peak(pl), used_fec, rc.mode, cng_level});
       clean_run48 = 0;
       // ---- decay under sustained loss (decay-probe sessions: loud voiced / tonal burst after a quiet lead-in)
       conceal_run48 += rc.frame48;
@@ -256,7 +264,8 @@ struct Lossy {
     }
   }
   // calibrated bounds (calib/thresholds.json C09.*)
-  static constexpr double KAPPA_NB = 6.0; static constexpr double KAPPA = 14.0, RHO = 0.1, ALPHA = 0.45, ALPHA40 = 1.65, ALPHA60 = 0.8, THETA_DB = -20.0;
+  static constexpr double KAPPA_NB = 11.0; double KAPPA = 36.0;   // (a regression plan may carry its own, plan-specific bound in the header) 
+  static constexpr double RHO = 0.1, ALPHA = 0.45, ALPHA40 = 1.65, ALPHA60 = 0.8, THETA_DB = -20.0;
   void finish_recovery(double err, double ref, long samples, bool celt) {
     if (ref <= 0) return;
     double db = 10 * log10(std::max(err / ref, 1e-12));
@@ -272,6 +281,7 @@ struct Lossy {
 
   void go(const Plan &p) {
     cur_seed = p.seed;
+    { auto it = p.hdr.find("kappa"); if (it != p.hdr.end() && atof(it->second.c_str()) > 1) KAPPA = atof(it->second.c_str()); }
     for (size_t i = 0; i < p.ops.size(); i++) {
       const Op &op = p.ops[i]; run.cur_op = (int)i;
       if (op.k == "ENCNEW") { Op o2 = op; o2.a[0] = K_SINGLE; S.op_encnew(o2, run); }
